@@ -291,6 +291,7 @@ def _loop_base(x):
 def _finish_tests(tests):
     seen, clean = set(), []
     for x in tests:
+        x = sym.anon_format(x)     # the same spelling of format terms as in elements (literal arguments folded into the text)
         if x in seen:
             continue
         seen.add(x)
@@ -433,7 +434,9 @@ def coll(t, depth=0):
     if not isinstance(t, tuple) or not t:
         raise NotAComprehension("atom")
     if t[0] == "acc" and len(t) == 2:
-        return coll(t[1], depth)
+        # the value an accumulator has at the head of a loop, read inside the loop: what it started from plus whatever earlier passes added -
+        # not a collection this term builds
+        raise NotAComprehension("loop-head value")
     if is_empty_ctor(t):
         return []
     if t[0] == "list" and len(t) == 2:
@@ -550,14 +553,17 @@ def canon(t):
         except NotAComprehension:
             pass
     if t[0] == "acc" and len(t) == 2:
-        return canon(t[1])
+        return ("loop-head", canon(t[1]))
     if t[0] == "try" and len(t) == 2:
         inner = canon(t[1])
         if isinstance(inner, tuple) and inner[:1] == ("coll",):
             # `iter.map(f).collect::<Option<Vec<_>>>()?`: a `?` on a collection of Options is a `?` on every element
             return ("coll", tuple((src, tuple((ts, ("try", e)) for ts, e in alts)) for src, alts in inner[1]))
         return ("try", inner)
-    return norm(tuple(canon(x) if isinstance(x, tuple) else x for x in t))
+    r = norm(tuple(canon(x) if isinstance(x, tuple) else x for x in t))
+    if isinstance(r, tuple) and r[:1] in (("format",), ("write",)) and len(r) == 3:
+        r = sym.anon_format(r)      # a literal argument is part of the text: `format!("{}_x", "a")` is "a_x"
+    return r
 
 
 def exits_as_try(v):
